@@ -245,6 +245,17 @@ fn be(b: &[u8], off: usize) -> u16 {
     u16::from_be_bytes([b[off], b[off + 1]])
 }
 
+/// the UDP checksum RFC 768 / 8200 prescribe before the zero → 0xFFFF substitution
+pub fn udp_ck(cfg: &WCfg, sp: u16, dp: u16, payload: &[u8]) -> u16 {
+    let mut u = vec![];
+    u.extend(sp.to_be_bytes());
+    u.extend(dp.to_be_bytes());
+    u.extend(((8 + payload.len()) as u16).to_be_bytes());
+    u.extend([0, 0]);
+    u.extend(payload);
+    !ones_sum(&[&pseudo(cfg.src, cfg.dst, 17, u.len()), &u])
+}
+
 // ---------------------------------------------------------------- C11 oracle
 
 /// what was captured from one successful dispatch
@@ -363,9 +374,11 @@ pub fn c11_check(cfg: &WCfg, p: &Probe, cell: Option<&Cell>, sent: &Sent) -> Vec
     if usize::from(be(&l4, 4)) != l4.len() { bad("c11-udp-length", be(&l4, 4).to_string()); }
     let sum = ones_sum(&[&pseudo(cfg.src, cfg.dst, 17, l4.len()), &l4]);
     if sum != 0xffff { bad("c11-udp-checksum", format!("{sum:04x}")); }
-    // observation, not a failure: RFC 8200 §8.1 wants a computed 0x0000 sent as 0xFFFF over IPv6
-    // (the code sends 0x0000; with Paris the field is the sequence by design)
-    if cfg.v6 && be(&l4, 6) == 0 { bad("obs-udp6-zero-checksum", String::new()); }
+    // RFC 8200 §8.1: a UDP datagram over IPv6 must not carry a zero checksum (receivers discard it)
+    if cfg.v6 && be(&l4, 6) == 0 {
+        let why = if paris && p.sequence.0 == 0 { "paris sequence=0" } else { "computed checksum zero sent as zero" };
+        bad("c11-udp6-zero-checksum", why.to_string());
+    }
     if !cfg.v6 && to_port != p.dest_port.0 { bad("c11-udp-port", to_port.to_string()); }
     if paris {
         if be(&l4, 6) != p.sequence.0 { bad("c11-seq-paris", be(&l4, 6).to_string()); }
